@@ -55,6 +55,10 @@ def cmp_probe(ops: list[str], thunks: list, inexact: list[bool], text: str):
     left = thunks[0]()
     for i, op in enumerate(ops):
         right = thunks[i + 1]()
+        if any(isinstance(v, complex) or v != v for v in (left, right)):
+            # numpy scalars turn (-1.0) ** 0.5 into nan where Python floats give a complex number / raise: the
+            # comparison is undefined, whatever it answers
+            RECORD.append(f"comparison {text}: undefined operand {left!r} {op} {right!r}")
         near, same = _near(left, right)
         if near and not (same and not inexact[i] and not inexact[i + 1] and _safe(left) and _safe(right)):
             RECORD.append(f"comparison {text}: {left!r} {op} {right!r}")
